@@ -301,6 +301,71 @@ def mhaBatchElem (th e : κ → κ) (ax : MaskAxis) (m : MHA κ) (qs : List (Lis
       (fun h => some ((List.range mask.length).map (fun t => headMaskView ax mask t b h))))
   else none
 
+/-! ## Constructors: the optional arguments AS THE CALLER SPELLS THEM (improvement round f)
+
+Every optional constructor argument is an `Option`: `none` = the caller omitted it (for `out_size` / `d_v`
+also: passed `None`, the documented spelling of "unset").  `resolve` is what `__init__` makes of them — the
+DOCUMENTED defaults: `dim = 0`, `scale_factor = 1`, `bias = False`, `hidden_size = 1000`, `out_size = value_size`,
+`d_v = max(1, value_size // num_heads)`, the four `bias_W*` flags `False`.  Nothing else is kept: the modules the
+model builds from a resolved configuration do not know whether an argument was passed (there is no "was it
+given" state), so a call that omits an argument and a call that passes its documented default build the SAME
+module.  The driver resolves the arguments of every generated construction with these functions. -/
+
+/-- Optional arguments of `DotProductSoftAttention(size, dim, scale_factor)`,
+`GeneralizedDotProductSoftAttention(query_size, key_size, dim, bias)` and
+`ConcatSoftAttention(query_size, key_size, dim, bias, hidden_size)`; arguments a flavour does not have
+stay `none`. -/
+structure SingleArgs (κ : Type) where
+  dim : Option Int := none
+  scaleFactor : Option κ := none
+  bias : Option Bool := none
+  hiddenSize : Option Nat := none
+
+/-- What the constructor stores. -/
+structure SingleCfg (κ : Type) where
+  dim : Int
+  scaleFactor : κ
+  bias : Bool
+  hiddenSize : Nat
+
+/-- `__init__` of the single-head flavours; `one` is the carrier's 1 (the documented `scale_factor`). -/
+def SingleArgs.resolve (one : κ) (a : SingleArgs κ) : SingleCfg κ :=
+  { dim := a.dim.getD 0, scaleFactor := a.scaleFactor.getD one, bias := a.bias.getD false,
+    hiddenSize := a.hiddenSize.getD 1000 }
+
+/-- The score function a dot-product module has after construction: ONLY the resolved scale. -/
+def mkDot (c : SingleCfg κ) : Flavour κ := .dot c.scaleFactor
+
+/-- … a generalised module: `b` is the vector `torch` allocates when a bias is requested. -/
+def mkGeneral (c : SingleCfg κ) (W : List (List κ)) (b : Option (List κ)) : Flavour κ :=
+  .general W (if c.bias then b else none)
+
+/-- … a concat module (`W` has `hidden_size` rows, `v` has `hidden_size` entries). -/
+def mkConcat (c : SingleCfg κ) (W : List (List κ)) (b : Option (List κ)) (v : List κ) : Flavour κ :=
+  .concat W (if c.bias then b else none) v
+
+/-- Optional arguments of `MultiHeadedAttention(query_size, key_size, value_size, num_heads,
+single_head_attention, out_size, d_v, bias_WQ, bias_WK, bias_WV, bias_WC)`. -/
+structure MultiArgs where
+  outSize : Option Nat := none
+  dv : Option Nat := none
+  biasWQ : Option Bool := none
+  biasWK : Option Bool := none
+  biasWV : Option Bool := none
+  biasWC : Option Bool := none
+
+structure MultiCfg where
+  outSize : Nat
+  dv : Nat
+  flags : BiasFlags
+
+/-- `MultiHeadedAttention.__init__`: `out_size` defaults to `value_size`, `d_v` to
+`max(1, value_size // num_heads)`, the flags to `False`.  (`d_q`, `d_k` and `dim` are read off the wrapped
+module: they are not arguments.) -/
+def MultiArgs.resolve (valueSize numHeads : Nat) (a : MultiArgs) : MultiCfg :=
+  { outSize := a.outSize.getD valueSize, dv := a.dv.getD (max 1 (valueSize / numHeads)),
+    flags := ⟨a.biasWQ.getD false, a.biasWK.getD false, a.biasWV.getD false, a.biasWC.getD false⟩ }
+
 end Generic
 
 /-! ## Shapes: `check_input` and the shape of the result -/
